@@ -92,6 +92,25 @@ def build_case(kind, position, exprs):
         types.append(gql.obj("RImpl", ofields, ["RBase"]))
         types.append(gql.obj("Q", [("impl", "RImpl"), ("base", "RBase")]))
         doc = gql.Doc([gql.Op("query", "Op", [gql.Field("impl", sel)])])
+    elif position == "conditional_response":
+        # the field itself carries @include: exactly the outermost non-null goes away, every other level stays
+        fields, sel = [], []
+        for i, t in enumerate(exprs):
+            fn = "f%d" % i
+            fields.append(gql.FieldDef(fn, t))
+            d = [("include", "c")] if i % 2 == 0 else [("skip", "c")]
+            if kind == "Obj":
+                sel.append(gql.Field(fn, [gql.Field("x")], directives=d))
+                leaf = "OpF%d" % i
+            elif kind in ("Iface", "Uni"):
+                sel.append(gql.Field(fn, [gql.TN()], directives=d))
+                leaf = "OpF%d" % i
+            else:
+                sel.append(gql.Field(fn, directives=d))
+                leaf = kind
+            expected[fn] = (t[1] if t[0] == "NN" else t, leaf)
+        types.append(gql.obj("Q", fields))
+        doc = gql.Doc([gql.Op("query", "Op", sel, [("c", "Boolean!", None)])])
     elif position == "below_conditional_fragment":
         # the fields sit in an object selected INSIDE an inline fragment that carries @include: a directive on the fragment
         # says nothing about the types of fields further down
@@ -194,7 +213,7 @@ def run(tier):
     rep = Report("C13", "model_checking", tier)
     cases = []
     for position, kinds in (("response", OUT_KINDS), ("variable", IN_KINDS), ("input_field", IN_KINDS),
-                            ("oneof_member", IN_KINDS), ("object_refines_interface", OUT_KINDS), ("below_conditional_fragment", OUT_KINDS)):
+                            ("oneof_member", IN_KINDS), ("object_refines_interface", OUT_KINDS), ("below_conditional_fragment", OUT_KINDS), ("conditional_response", OUT_KINDS)):
         for kind in kinds:
             exprs = gql.all_type_exprs(kind, 4)
             schema, doc, expected = build_case(kind, position, exprs)
@@ -224,7 +243,7 @@ def run(tier):
             if aliases.get(a) != target:
                 rep.violation("builtin_scalar_alias", dict(label, alias=a), "type %s = %r, expected %s" % (a, aliases.get(a), target))
         holder = {"response": "ResponseData", "variable": "Variables", "input_field": "Holder",
-                  "oneof_member": "Holder", "object_refines_interface": "OpImpl", "below_conditional_fragment": "OpNOnHolderTSub"}[c["position"]]
+                  "oneof_member": "Holder", "object_refines_interface": "OpImpl", "below_conditional_fragment": "OpNOnHolderTSub", "conditional_response": "ResponseData"}[c["position"]]
         item = next((it for it in mod["items"] if it["kind"] in ("struct", "enum") and it["name"] == holder), None)
         if item is None:
             rep.violation("holder_missing", label, holder)
@@ -291,7 +310,7 @@ def run(tier):
         "traces_validated_against_impl": validated,
         "evaluations": len(reqs) + validated, "distinct_nontrivial": states,
         "rule": "state = (type expression of list depth <= 4, kind of named type, position, schema format); all 62 "
-                "expressions x 10 output / 8 input kinds x 6 positions (fields of an object below a conditional inline fragment, response field, variable, input field - also with a declared default value -, @oneOf member, field of an object that narrows an interface's declaration) x 2 formats (the @oneOf position only for "
+                "expressions x 10 output / 8 input kinds x 7 positions (response fields that carry @skip / @include themselves, fields of an object below a conditional inline fragment, response field, variable, input field - also with a declared default value -, @oneOf member, field of an object that narrows an interface's declaration) x 2 formats (the @oneOf position only for "
                 "nullable outermost expressions); transition = comparison of the emitted field type with the "
                 "model rule, plus one conformance run per (field, null injected at nesting level) on compiled code",
         "exhaustive": True,
